@@ -199,6 +199,15 @@ func rawSubs(subs []Op) []Op {
 func genPlanC07(t *rapid.T) Plan {
 	p := Plan{BufSize: 16384, NClients: rapid.IntRange(2, 3).Draw(t, "nclients")}
 	short := []string{"a", "b", "c", "d", "e", "f", "g", "h", "a/b", "b/a", "+", "a/+", "#", "a/#", "cc", "b/cc", "/", "a/"}
+	// in a third of the plans the subscribing clients have persistent sessions and come back
+	// now and then: requests then also concern subscriptions inherited from an earlier connection.
+	// Those plans use no filters with empty levels: the session keeps the filters as written
+	// while the tree stores "a/" as "a" (known finding empty-level), and what a resumed session
+	// re-subscribes then depends on both - the variant model does not follow that far.
+	persistent := rapid.IntRange(0, 2).Draw(t, "persistent") == 0
+	if persistent {
+		short = short[:len(short)-2]
+	}
 	var held []string
 	genFilters := func(n int, allowInvalid bool) ([]string, []byte) {
 		var fs []string
@@ -216,6 +225,9 @@ func genPlanC07(t *rapid.T) Plan {
 				f = rapid.SampledFrom(short).Draw(t, "short")
 			default:
 				f = genFilter(t)
+				for persistent && hasEmptyLevel(f) {
+					f = strings.ReplaceAll("x/"+f+"/x", "//", "/x/")
+				}
 			}
 			q := byte(rapid.IntRange(0, 2).Draw(t, "q"))
 			if allowInvalid && rapid.IntRange(0, 19).Draw(t, "badq") == 0 {
@@ -225,9 +237,15 @@ func genPlanC07(t *rapid.T) Plan {
 		}
 		return fs, qs
 	}
+	if persistent {
+		p.Ops = append(p.Ops, Op{K: "connect", C: 0, Clean: false}, Op{K: "connect", C: 1, Clean: false})
+	}
 	nops := rapid.IntRange(6, 24).Draw(t, "nops")
 	for i := 0; i < nops; i++ {
 		switch k := rapid.IntRange(0, 10).Draw(t, "opkind"); {
+		case k == 9 && persistent:
+			c := rapid.IntRange(0, 1).Draw(t, "rc")
+			p.Ops = append(p.Ops, Op{K: rapid.SampledFrom([]string{"disconnect", "close"}).Draw(t, "rend"), C: c}, Op{K: "connect", C: c, Clean: false})
 		case k == 10:
 			// unrelated traffic through a subscriber's own connection: a ring's worth
 			// and more arrives after its SUBSCRIBE packets (what the subscription
